@@ -20,6 +20,7 @@ MANIFEST = {
     "note": "The kind of error is not judged (only its presence); 'consumed' need only be <= n; contents of inactive storage and NaN payloads are "
             "not judged. Cases where the own model and PyDSDL's codec disagree are not judged and make the run inconclusive.",
 }
+MANIFEST["text"] += ' C and C++ decodes also start from the object an earlier full message left behind (every array full, every bit set); the Python harness overwrites, in place, the arrays of every object it decoded before the next decode.'
 
 
 def classify(base, t, data, exp_ok, res, flags):
